@@ -24,7 +24,7 @@ def main(argv):
     rep = engine.Report(prop, tier, seed)
 
     # ---- 1. proofs: translate, build, audit
-    binfo = buildmod.build(cfg['coq'])
+    binfo = buildmod.build(cfg['coq'], thorough=(tier == 'thorough'))
     if not binfo.get('driver_ok'):
         print('INTERNAL: extracted driver missing; build errors: %s' % binfo['errors'])
         engine.write_evidence(rep, binfo, cfg.get('rule', ''), TRUSTED_BASE, COMMON_ASSUMPTIONS + cfg.get('assumptions', []))
